@@ -68,7 +68,7 @@ def generate(seed, tier="quick", mode=None, **kw):
             c = r.random()
             if c < 0.62:
                 ident = r.choice(ids)
-                ln = GC.secret_line(r, ctx, secrets, kinds=(r.choice(keep_only),), ident=ident)
+                ln = GC.secret_line(r, ctx, secrets, kinds=(r.choice(keep_only),), ident=ident, mix_slots=r.random() < 0.6)
                 if ln is None:
                     ln = GC.secret_line(r, ctx, secrets, kinds=("keep",))
                 if ln is None:
